@@ -14,7 +14,21 @@ class Scen(CompScenario):
         self.n = c["entries"]
         self.ma = c["max_alloc"]
         self.mf = c["max_free"]
-        self.dut = CircularAllocator(self.n, self.ma, self.mf, with_validate_arguments=True)
+        # validation: on (explicitly or through the constructor default) or off.  Without validation the premise is
+        # that only fitting counts are requested ("the count argument needs to be verified using external logic");
+        # ring order, oldest identifiers and the exact count are then judged as with validation
+        self.validate = bool(c.get("validate", 1))
+        if not self.validate:
+            self.dut = CircularAllocator(self.n, self.ma, self.mf, with_validate_arguments=False)
+            self.hit("no_validation_run")
+        elif c.get("ctor_defaults") and self.ma == 1 and self.mf == 1:
+            self.dut = CircularAllocator(self.n)  # max_alloc = max_free = 1, with_validate_arguments = True by default
+            self.hit("constructor_defaults_run")
+        elif c.get("ctor_defaults"):
+            self.dut = CircularAllocator(self.n, self.ma, self.mf)
+            self.hit("constructor_defaults_run")
+        else:
+            self.dut = CircularAllocator(self.n, self.ma, self.mf, with_validate_arguments=True)
         self.top.add("dut", self.dut)
         self.caller("alloc", self.dut.alloc)
         self.caller("free", self.dut.free)
@@ -79,6 +93,9 @@ class Scen(CompScenario):
             "alloc.i.count": self._count(rng, self.ma, space, kind, p),
             "free.i.count": self._count(rng, self.mf, self.count, kind, p),
         }
+        if not self.validate:  # premise of the unvalidated allocator: only counts that fit
+            stim["alloc.i.count"] = min(stim["alloc.i.count"], space)
+            stim["free.i.count"] = min(stim["free.i.count"], self.count)
         return stim
 
     # ---- oracle -----------------------------------------------------------------------------
@@ -90,6 +107,9 @@ class Scen(CompScenario):
         a_cnt, f_cnt = stim.get("alloc.i.count", 0), stim.get("free.i.count", 0)
         self.premise(0 <= a_cnt <= ma and 0 <= f_cnt <= mf, "count argument outside range(max+1)")
         a_done, f_done, c_done = obs["alloc.done"], obs["free.done"], obs["clear.done"]
+        if not self.validate:
+            self.premise(not a_en or a_cnt <= space, f"alloc(count={a_cnt}) requested without validation with {space} free")
+            self.premise(not f_en or f_cnt <= cnt, f"free(count={f_cnt}) requested without validation with {cnt} allocated")
 
         # the allocated count is tracked exactly; the statement does not mention the pointer signals (ring order
         # is judged on the identifiers alloc / free return) -- a deviating pointer is only counted
@@ -146,6 +166,30 @@ class Scen(CompScenario):
             want = [(start + i) % n for i in range(f_cnt)]
             self.expect(got == want, "free-idents-mismatch",
                         f"free(count={f_cnt}) returned {got}, expected the oldest {want} (start {start}, n={n})", port="free")
+        # new_end_idx / new_start_idx as the docstrings of alloc / free define them: "first identifier after the last
+        # allocated (freed) one".  A call with count 0 allocates (frees) nothing, the docstring does not cover it: counted
+        if a_done:
+            got, want = obs.get("alloc.o.new_end_idx", 0), (end + a_cnt) % n
+            if a_cnt:
+                self.expect(got == want, "new-end-idx-mismatch",
+                            f"alloc(count={a_cnt}) returned new_end_idx={got}; the last allocated identifier is "
+                            f"{(end + a_cnt - 1) % n}, the first after it {want} (n={n})", port="alloc")
+                self.hit("new_end_idx_judged")
+                if end + a_cnt >= n:
+                    self.hit("new_end_idx_wrapped")
+            elif got != want:
+                self.hit("new_end_idx_at_count_0_differs_from_end")
+        if f_done:
+            got, want = obs.get("free.o.new_start_idx", 0), (start + f_cnt) % n
+            if f_cnt:
+                self.expect(got == want, "new-start-idx-mismatch",
+                            f"free(count={f_cnt}) returned new_start_idx={got}; the last freed identifier is "
+                            f"{(start + f_cnt - 1) % n}, the first after it {want} (n={n})", port="free")
+                self.hit("new_start_idx_judged")
+                if start + f_cnt >= n:
+                    self.hit("new_start_idx_wrapped")
+            elif got != want:
+                self.hit("new_start_idx_at_count_0_differs_from_start")
 
         # ---- what fired
         if a_en and not a_fits and space > 0:
@@ -184,10 +228,23 @@ class Scen(CompScenario):
                 self.hit("clear_at_full")
         if n & (n - 1) and a_done and a_cnt and end + a_cnt >= n:
             self.hit("wrap_non_power_of_two")
+        if (a_done and a_cnt >= 4) or (f_done and f_cnt >= 4):
+            self.hit("count_4_or_more")
+        if (a_done and a_cnt == n) or (f_done and f_cnt == n):
+            self.hit("count_equals_entries")
+        if not self.validate:
+            if a_done and a_cnt == space and a_cnt:
+                self.hit("no_validation_alloc_exact_fit")
+            if f_done and f_cnt == cnt and f_cnt:
+                self.hit("no_validation_free_exact_all")
+            if a_done and f_done and a_cnt and f_cnt:
+                self.hit("no_validation_alloc_and_free_same_cycle")
+            if a_done and a_cnt > 1 and 0 < n - end < a_cnt:
+                self.hit("no_validation_alloc_multi_across_wrap")
 
         calls = (a_cnt if a_done else -1, f_cnt if f_done else -1, c_done)
         boundary = cnt in (0, 1, n - 1, n) or (a_done and end + a_cnt >= n) or (f_done and start + f_cnt >= n)
-        self.visit((cnt, start, calls), nontrivial=bool(a_done or f_done or c_done) and bool(boundary or c_done))
+        self.visit((cnt, start, calls, self.validate), nontrivial=bool(a_done or f_done or c_done) and bool(boundary or c_done))
 
         # ---- step the model: alloc and free act on the state of the cycle start, clear last
         if a_done:
@@ -206,14 +263,19 @@ class Prop(PropBase):
         "quick": {"runs": 360, "selftest_runs": 4},
         "thorough": {"runs": 28000, "selftest_runs": 32},
     }
-    rule = ("one run = one (entries, max_alloc, max_free) configuration with argument validation, driven for 80-260 "
-            "cycles by a seeded phase plan (random / fill / drain / ping-pong / refuse / flush / idle); distinct = distinct "
+    rule = ("one run = one (entries, max_alloc, max_free up to 5 and up to entries) configuration with argument validation "
+            "(explicit or by constructor default) or (30 %) without it -- then only fitting counts are requested (premise) -- "
+            "driven for 80-260 cycles by a seeded phase plan (random / fill / drain / ping-pong / refuse / flush / idle); distinct = distinct "
             "(configuration, allocated count, start pointer, executed calls with their counts); non-trivial = a call "
             "executed at allocated in {0, 1, entries-1, entries}, or crossing the modulo boundary, or clear ran")
     expected_cov = ["alloc_refused_overflow", "alloc_refused_full", "free_refused_underflow", "free_refused_empty",
                     "alloc_exact_fit", "free_exact_all", "alloc_and_free_same_cycle", "alloc_and_free_both_exact",
                     "alloc_zero", "alloc_multi_across_wrap", "alloc_ends_at_wrap", "free_multi_across_wrap",
-                    "free_ends_at_wrap", "clear_with_alloc", "clear_with_free", "clear_at_full", "wrap_non_power_of_two"]
+                    "free_ends_at_wrap", "clear_with_alloc", "clear_with_free", "clear_at_full", "wrap_non_power_of_two",
+                    "no_validation_run", "constructor_defaults_run", "new_end_idx_judged", "new_end_idx_wrapped",
+                    "new_start_idx_judged", "new_start_idx_wrapped", "count_4_or_more", "count_equals_entries",
+                    "no_validation_alloc_exact_fit", "no_validation_free_exact_all",
+                    "no_validation_alloc_and_free_same_cycle", "no_validation_alloc_multi_across_wrap"]
     real = ["transactron.lib.allocators.CircularAllocator", "transactron.utils.amaranth_ext.functions.mod_add",
             "validate_arguments in TransactionManager", "transactron.lib.adapters.AdapterTrans",
             "TransactionManager + scheduler", "amaranth pysim"]
@@ -221,7 +283,11 @@ class Prop(PropBase):
     assumptions = ["alloc / free return identifiers relative to the ring state at the beginning of the cycle; of the calls executed "
                    "in one cycle clear is applied last",
                    "'would overflow / underflow' is judged for calls that do not fit even counting a free / alloc executed in "
-                   "the same cycle; the start_idx / end_idx signals are not judged (ring order is judged on returned identifiers)"]
+                   "the same cycle; the start_idx / end_idx signals are not judged (ring order is judged on returned identifiers)",
+                   "the returned new_end_idx / new_start_idx are judged as the method docstrings define them (first identifier "
+                   "after the last allocated / freed one) for calls with count > 0; at count 0 they are only counted",
+                   "without validation (with_validate_arguments=False) only counts that fit at the beginning of the cycle are "
+                   "requested (premise, as the constructor documentation demands external verification of count)"]
     search_space = ("CircularAllocator configurations (entries incl. 1 and non-powers of two, max_alloc, max_free) and "
                     "alloc/free/clear call histories with counts at, below and one above the space left")
 
@@ -232,18 +298,29 @@ class Prop(PropBase):
         mf = rng.randint(1, min(3, n))
         cycles = rng.randint(80, 400 if big else 260)
         kinds = ["random", "random", "fill", "drain", "pingpong", "refuse", "refuse", "flush", "idle"]
-        return {"entries": n, "max_alloc": ma, "max_free": mf, "cycles": cycles,
-                "sched": rng.choice(["eager", "eager", "rr"]), "plan": make_plan(rng, cycles, kinds)}
+        cfg = {"entries": n, "max_alloc": ma, "max_free": mf, "cycles": cycles,
+               "sched": rng.choice(["eager", "eager", "rr"]), "plan": make_plan(rng, cycles, kinds)}
+        # a share of the runs: larger per-call limits (up to 5), also equal to entries
+        r = rng.random()
+        if r < 0.2:
+            cfg["max_alloc"], cfg["max_free"] = rng.randint(1, min(5, n)), rng.randint(1, min(5, n))
+        elif r < 0.35:
+            cfg["max_alloc"] = cfg["max_free"] = min(5, n)
+        elif r < 0.45:
+            cfg["max_alloc" if rng.random() < 0.5 else "max_free"] = min(5, n)
+        cfg["validate"] = int(rng.random() >= 0.3)
+        cfg["ctor_defaults"] = int(rng.random() < 0.3)
+        return cfg
 
     def make(self, cfg):
         return Scen(cfg)
 
     def features(self, cfg, viol):
         n = cfg["entries"]
-        return {"port": (viol.get("info") or {}).get("port"), "pow2": not (n & (n - 1))}
+        return {"port": (viol.get("info") or {}).get("port"), "pow2": not (n & (n - 1)), "validate": cfg.get("validate", 1)}
 
     def cfg_signature(self, cfg):
-        return [cfg["entries"], cfg["max_alloc"], cfg["max_free"], cfg["sched"]]
+        return [cfg["entries"], cfg["max_alloc"], cfg["max_free"], cfg["sched"], cfg.get("validate", 1), cfg.get("ctor_defaults", 0)]
 
     def shrink_cfg(self, cfg):
         # counts in the recorded stimulus must stay within range(max+1): only entries and scheduler shrink
